@@ -203,8 +203,84 @@ func renamedWorld(w *World, suffix string) *World {
 	return &c
 }
 
+// kitchenSink is a fixed script that uses every built-in function, every kind of markup marker, options with
+// conditions and tags, variables of the three types, a jump and a short wait. Every C18 stress child drives
+// several runners of it concurrently as the FIRST thing the cold process does: whatever the library sets up
+// lazily on first use (tables, caches, compiled patterns) is then set up by several goroutines at once.
+const kitchenSink = `title: Start
+---
+<<declare $n = 1.5>>
+<<declare $b = true>>
+<<declare $s = "txt">>
+K1 {round($n)} {round_places(1.23456, 2)} {round_places(7, 16)} {round_places(12345, -2)} {floor($n)} {ceil($n)} {inc($n)} {dec($n)} {decimal($n)} {integer($n)}
+K2 {string($n)} {string($b)} {number("2.5")} {bool("true")} {dice(6)} {random_range(1, 3)} {random() < 1} {visited("Start")} {visited_count("Side")}
+K3 [b]bold[/b] [wave a=1 s="q r"]w[/wave] [nomarkup][x] raw [/b][/nomarkup] [select value=b a="A" b="B" /] [plural value=2 one="cat" other="% cats" /] [ordinal value=3 one="%st" two="%nd" few="%rd" other="%th" /] \[esc\] [a/] Mae: tail
+-> O1 plain #tag1
+    <<set $n += 1>>
+-> O2 [em]x[/em] <<if $b and not ($n > 5)>> #t2 #t3
+-> O3 off <<if $n > 100 or $s == "zzz">>
+<<set $s += "!">>
+<<wait 0.001>>
+<<jump Side>>
+===
+title: Side
+---
+K4 {$n} {$b} {$s} {visited_count("Start")} {1 + 2 * 3 - 4 / 2 % 3} {"a" + "b" == "ab"} {not false xor true}
+<<if $n >= 2>>
+K5 then
+<<elseif $n < 0>>
+K5 elseif
+<<else>>
+K5 else
+<<endif>>
+===
+`
+
+func kitchenSinkTrace(seed string) string {
+	w := &World{Readers: []ReaderSpec{{Text: kitchenSink}}, Host: HostSpec{Storer: "rec", Probes: true, Seed: seed}}
+	ops := make([]Op, 12)
+	for i := range ops {
+		ops[i] = Op{K: "next", Arg: 0}
+	}
+	return freeRun(&c18Runner{World: *w, Ops: ops})
+}
+
 func raceChildC18(rp *racePlan) {
 	cp := rp.C18
+	{
+		const n = 6
+		got := make([]string, n)
+		var wg sync.WaitGroup
+		start := make(chan struct{})
+		for j := 0; j < n; j++ {
+			wg.Add(1)
+			go func(j int) {
+				defer wg.Done()
+				<-start
+				got[j] = kitchenSinkTrace("k1")
+			}(j)
+		}
+		close(start)
+		wg.Wait()
+		solo := kitchenSinkTrace("k1")
+		if strings.HasPrefix(solo, "load failed") || !strings.Contains(solo, "K5 then") {
+			fmt.Printf("STRESS-MISMATCH the fixed all-built-ins script does not run as written: %.300q\n", solo)
+			return
+		}
+		for j := range got {
+			if got[j] != solo {
+				a, b := strings.Split(solo, "\n"), strings.Split(got[j], "\n")
+				for i := 0; i < len(a) && i < len(b); i++ {
+					if a[i] != b[i] {
+						fmt.Printf("STRESS-MISMATCH all-built-ins script, goroutine %d of %d in a cold process: sequential %q concurrent %q\n", j, n, a[i], b[i])
+						return
+					}
+				}
+				fmt.Printf("STRESS-MISMATCH all-built-ins script, goroutine %d: trace lengths differ\n", j)
+				return
+			}
+		}
+	}
 	// concurrently, from the first instruction of the process (cold caches)
 	type job struct{ runner, copyNo int }
 	var jobs []job
